@@ -7,7 +7,7 @@ CONSTANTS Depth, NOpt
 VARIABLE hist
 Pol == [E2 -> [1..NOpt -> BOOLEAN]]
 SInit == /\ \E al \in Pol, ar \in Pol :
-              InitWith([nopt |-> NOpt, accL |-> al, accR |-> ar, maxreq |-> Depth])
+              InitWith([nopt |-> NOpt, accL |-> al, accR |-> ar, maxreq |-> Depth, reent |-> TRUE])
          /\ hist = <<>>
 SNext == Next /\ hist' = Append(hist, last')
 SSpec == SInit /\ [][SNext]_<<vars, hist>>
